@@ -2,7 +2,9 @@
    Statements only; proofs in Proofs/IMU.v.  Model: Model/IMU.v (one batch item = [forward1];
    the batch axis is a map).  Frames carry the rotation increment Exp(gyro*dt) and its right
    Jacobian (external routines); theorems hold for ARBITRARY unit increments.
-   [left] is the flag handed to cumprod in propagate_cov: the source uses left=true. *)
+   [left] is the flag handed to cumprod in propagate_cov: the source uses left=false
+   ([code_left]; since /repo 608b3d9 - before it the default left=true, see the history theorem).
+   [forward1] = [forward1_gen code_left], [propagate_cov] = [propagate_cov_gen code_left]. *)
 From Coq Require Import QArith Reals List.
 Import ListNotations.
 From PV Require Import Base.Num Base.Mat Model.Cumops Model.LieGroup Model.IMU Proofs.LieGroup Proofs.IMU.
@@ -77,33 +79,33 @@ Theorem C16_cov_valid_over_histories :
   Forall (fun o => forall C, o_cov o = Some C -> mvalid C) os /\ mvalid (s_cov st').
 Proof. intros left c chunks pos rot vel os st' H E. exact (run1_cov_valid left c chunks _ os st' (init_cov_valid pos rot vel) H E). Qed.
 
-(* the covariance of the faithful model (left = true) is NOT chunking-invariant: three frames with
-   gyro = 0, dt = 1/2, acc = e_x, e_y, e_z, no gravity, unit sensor covariances, zero state; one call
-   vs chunks [2,1].  (Model evaluated over Q.)  Entry (8,8): 141/128 vs 149/128. *)
-Theorem C16_cov_chunk_invariance_refuted :
-  w_single true <> w_chunked true /\
-  entry (w_single true) 8 8 = Some (141 # 128)%Q /\ entry (w_chunked true) 8 8 = Some (149 # 128)%Q.
-Proof. split; [exact cov_chunk_invariance_refuted|]. destruct cov_chunks_witness as (A & B & _). now split. Qed.
-(* with cumprod(A.flip([1]), dim=1, left=False) the witness is invariant (and equals the chunked value) *)
-Theorem C16_cov_chunks_witness_fixed : w_single false = w_chunked false /\ w_chunked false = w_chunked true.
-Proof. exact cov_chunks_witness_fixed. Qed.
-
-(* ... and in general: with the right-to-left product the covariance is, for EVERY frame count, the
-   documented recursion  C_0 = init_cov, C_{k+1} = A_k C_k A_k^T + Q_k  (C12 scan theorem applied to
-   the shape-guarded matrix product) ... *)
+(* the covariance is, for EVERY frame count, the documented recursion
+   C_0 = init_cov, C_{k+1} = A_k C_k A_k^T + Q_k   (C12 scan theorem applied to the shape-guarded matrix
+   product, transported along the well-formedness invariant of the scan) ... *)
 Theorem C16_cov_fixed_is_recursion :
   forall (cs : list (cframe R)) (init_cov : @mat R) (cg ca : vec3R), wf 9 9 init_cov ->
-  propagate_cov_gen false cs init_cov cg ca = Some (cov_rec (map cov_A cs) (map (cov_Q cg ca) cs) init_cov).
-Proof. exact propagate_cov_fixed_is_recursion. Qed.
+  propagate_cov cs init_cov cg ca = Some (cov_rec (map cov_A cs) (map (cov_Q cg ca) cs) init_cov).
+Proof. exact cov_is_recursion. Qed.
 (* ... hence chunking-invariant: carried and returned covariance of any chunking = one call *)
-Theorem C16_cov_chunk_invariance_fixed :
+Theorem C16_cov_chunk_invariance :
   forall (c : cfg R) (st : istate R) (chunks : list (list (iframe R))),
   c_reset c = false -> c_prop c = true -> chunks <> [] -> Forall (fun fs => fs <> []) chunks -> Forall unit_frames chunks ->
   unitq (s_rot st) -> wf 9 9 (s_cov st) ->
   exists os st1 o st2,
-    run1_gen false c st chunks = Some (os, st1) /\ forward1_gen false c st (concat chunks) = Some (o, st2) /\
+    run1_gen code_left c st chunks = Some (os, st1) /\ forward1 c st (concat chunks) = Some (o, st2) /\
     s_cov st1 = s_cov st2 /\ o_cov o = Some (s_cov st1).
-Proof. exact cov_chunk_invariance_fixed. Qed.
+Proof. exact cov_chunk_invariance. Qed.
+
+(* history: with the product order of the source before 608b3d9 (cumprod default left=True, [forward1_old])
+   the covariance was NOT chunking-invariant: three frames with gyro = 0, dt = 1/2, acc = e_x, e_y, e_z, no
+   gravity, unit sensor covariances, zero state; one call vs chunks [2,1] (model evaluated over Q):
+   entry (8,8) 141/128 vs 149/128; the present order gives 149/128 both ways *)
+Theorem C16_old_cov_chunk_invariance_refuted :
+  w_single true <> w_chunked true /\
+  entry (w_single true) 8 8 = Some (141 # 128)%Q /\ entry (w_chunked true) 8 8 = Some (149 # 128)%Q.
+Proof. split; [exact cov_chunk_invariance_refuted|]. destruct cov_chunks_witness as (A & B & _). now split. Qed.
+Theorem C16_cov_chunks_witness : w_single code_left = w_chunked code_left /\ w_chunked code_left = w_chunked true.
+Proof. exact cov_chunks_witness_fixed. Qed.
 
 (* the batch axis: a rank-3 call with consistent shapes is the per-item call on every item
    (initial state of size 1 broadcast to B) *)
@@ -134,9 +136,9 @@ Print Assumptions C16_chunk_invariance.
 Print Assumptions C16_rank_equivalence.
 Print Assumptions C16_cov_symmetric_psd.
 Print Assumptions C16_cov_valid_over_histories.
-Print Assumptions C16_cov_chunk_invariance_refuted.
-Print Assumptions C16_cov_chunks_witness_fixed.
+Print Assumptions C16_old_cov_chunk_invariance_refuted.
+Print Assumptions C16_cov_chunks_witness.
 Print Assumptions C16_cov_fixed_is_recursion.
-Print Assumptions C16_cov_chunk_invariance_fixed.
+Print Assumptions C16_cov_chunk_invariance.
 Print Assumptions C16_forward_per_item.
 Print Assumptions C16_hypotheses_satisfiable.
